@@ -17,6 +17,9 @@ CLAIMED = {
     "C02": ("The code-shaped kernel (devices x batches x slots with the padded last batch and the positional carry tuple) is proved equal to the specification sweep max_a sum_e prb*(rew + gamma*V[nxt]) for EVERY layout, value vector and gamma; the extracted policy is proved to be the first maximiser; monotonicity, gamma-contraction and constant shift are proved for every well-formed MDP. The hand-written kernel model is tied to the code by bit-exact per-sweep correspondence on injected value vectors (exact-dyadic regime), evaluated in the Coq kernel.",
             "Coq 8.16.1 kernel; hand-written model of _calculate_updated_* / _extract_policy_* (Model/Kernel.v) tied by correspondence; layout arithmetic translated from source (GenBatch); IEEE-754/XLA modelled by exact rationals on inputs where every float operation is exact.",
             "Coq proof (kernel = Bellman backup for all layouts) + kernel-evaluated bit-exact differential check", "6 C02"),
+    "C03": ("Layout independence is a Coq theorem: the code-shaped sweep, policy extraction and policy-evaluation kernels, and whole runs of VI, RVI, periodic VI and PI (final state, convergence flag and every checkpoint snapshot) are equal for ANY two layouts and ANY padding content; returned vectors have n_states entries. Tied to the code by whole-run bit-exact correspondence under emulated device counts 1-3 (1-8 thorough) and batch sizes that do / do not pad, including no-padding multi-device layouts.",
+            "Coq 8.16.1 kernel; kernels hand-modelled (Model/Kernel.v) and tied by correspondence; pmap/sharding behaviour is only observable by execution (XLA_FLAGS host device emulation); semi-asynchronous runs are compared per partition.",
+            "Coq proof (runs equal across layouts) + multi-device bit-exact differential runs", "6 C03"),
 }
 
 man = {
